@@ -17,9 +17,10 @@ BIN = {
     'hypot': ('if', 'if', 'any'), 'arctan2': ('if', 'if', 'nz'),
     'logical_and': ('b', 'b', 'any'), 'logical_or': ('b', 'b', 'any'), 'bitwise_and': ('b', 'b', 'any'), 'bitwise_or': ('b', 'b', 'any'), 'op&': ('b', 'b', 'any'), 'op|': ('b', 'b', 'any'),
 }
+# (numpy.square(bool) is int8, and NumPy then computes float ufuncs of it in float16: bool excluded from square)
 UN = {
     'negative': ('ifc', 'any'), 'op-neg': ('ifc', 'any'), 'positive': ('ifc', 'any'), 'op+pos': ('ifc', 'any'), 'reciprocal': ('fc', 'nz'), 'sqrt': ('ifc', 'pos'),
-    'square': ('bifc', 'any'), 'absolute': ('ifc', 'any'), 'abs()': ('ifc', 'any'), 'sign': ('if', 'any'),
+    'square': ('ifc', 'any'), 'absolute': ('ifc', 'any'), 'abs()': ('ifc', 'any'), 'sign': ('if', 'any'),
     'sin': ('ifc', 'any'), 'cos': ('ifc', 'any'), 'tan': ('ifc', 'unit'), 'arcsin': ('if', 'unit'), 'arccos': ('if', 'unit'), 'arctan': ('ifc', 'any'), 'sinc': ('ifc', 'any'),
     'cosh': ('ifc', 'any'), 'sinh': ('ifc', 'any'), 'tanh': ('ifc', 'any'), 'arctanh': ('if', 'unit'), 'exp': ('ifc', 'any'), 'log': ('if', 'pos'), 'log2': ('if', 'pos'), 'log10': ('if', 'pos'),
     'logical_not': ('b', 'any'), 'invert': ('b', 'any'), 'op~': ('b', 'any'), 'conjugate': ('ifc', 'any'), 'conj()': ('ifc', 'any'),
@@ -682,10 +683,10 @@ class Gen:
             return self.apply('searchsorted', P, [v])
         if not v.all(numpy.isfinite): return None      # excluded: numpy.interp at x = +-inf (nutils: fp[-1] + 0*inf = nan)
         n = rng.randint(2, 5)
-        grid = [k / 4 + 1 / 8 for k in range(-9, 9)] if rng.random() < .5 else [k / 4 for k in range(-8, 9)]     # nodes between or ON the data grid
+        grid = [k / 4 + 1 / 8 for k in range(-9, 9)] if rng.random() < .5 or not v.exact else [k / 4 for k in range(-8, 9)]     # nodes between or ON the data grid
         xp = sorted(set(rng.choice(grid) for _ in range(n)))
         force_right = False
-        if rng.random() < .35:
+        if v.exact and rng.random() < .35:
             # make the LAST node coincide with an actual value of x: NumPy returns fp[-1] there, `right` only beyond it
             xv = float(numpy.asarray(rng.choice(v.vals)).ravel()[0]) if numpy.asarray(v.vals[0]).size else None
             if xv is not None and abs(xv) < 100:
